@@ -91,8 +91,9 @@ Inductive case :=
   (* response / error response: string indexes of accept / designed type / pre-set header,
      packed (value kind, codec refusals json xml gob, observed encoder [0 = nil, k+1],
      observed decoder, Encode error, recovered, error kind [0 = ordinary response with
-     status 200; else 1 + (name is unsupported_media_type, timeout, temporary, fault, not a
-     ServiceError)]), parser answers, error media types, and what was read ON THE WIRE:
+     status 200; 33 = the muxer's NotFound handler; else 1 + (name is unsupported_media_type,
+     timeout, temporary, fault, not a ServiceError)]; observed encoder 5 = not observable
+     (inside the muxer), then not compared), parser answers, error media types, and what was read ON THE WIRE:
      Content-Type, status; sniff = what this writer fills in when it froze without one *)
 | RC (idx accept ct preset code : N) (ol el : list N) (o_hdr o_status sniff : N)
   (* request: Content-Type header, parser answers, packed (observed decoder [0 =
@@ -122,22 +123,24 @@ Definition case_ok (t : table) (c : case) : bool :=
     let '(rj, x) := take 2 x in
     let '(rx, x) := take 2 x in
     let '(rg, x) := take 2 x in
-    let '(oenc, x) := take 5 x in
+    let '(oenc, x) := take 6 x in
     let '(odec, x) := take 4 x in
     let '(oerr, x) := take 2 x in
     let '(orec, ekind) := take 2 x in
+    let enc_seen := negb (N.eqb oenc 5) in
     let oenc := if N.eqb oenc 0 then None else Some (kind_of_code (N.pred oenc)) in
     match str t a, str t c, str t p, str t ohdr, str t sniff with
     | Some a, Some c, Some p, Some oh, Some sn =>
       let pm := pmt_of t (pairs ol) in
-      let st := if N.eqb ekind 0 then 200 else http_status (error_response (goerr_of_code (N.pred ekind))) in
+      let st := if N.eqb ekind 0 then 200 else if N.eqb ekind 33 then 404
+                else http_status (error_response (goerr_of_code (N.pred ekind))) in
       let '(mk, body, w) := send pm (errmt_of t (pairs el)) (codec_of (nz rj) (nz rx) (nz rg)) a c (w_new p) st
                                  (value_of (vkind_of_code vk)) in
       match wire sn w with
       | None => false
       | Some (wst, wh) =>
         let dk := response_decoder pm wh in
-        opt_kind_eqb mk oenc && beq wh oh && N.eqb wst ost && kind_eqb dk (kind_of_code odec) &&
+        (if enc_seen then opt_kind_eqb mk oenc else true) && beq wh oh && N.eqb wst ost && kind_eqb dk (kind_of_code odec) &&
         match mk with
         | None => true
         | Some k =>
